@@ -369,12 +369,20 @@ class C20(Property):
                   "against the model per generated program (model scanner = Go scanner on the source and on the formatted text; "
                   "Go scanner tokens -> model parser = Go parser's AST; tokens AND line structure of format.Source(p) = print "
                   "(norm AST); comments kept in order; byte idempotence; format.File = format.Source; no panic/hang on mutated "
-                  "invalid sources). checked_case_satisfies_property ties the boolean check to the model statement.")
+                  "invalid sources; for comment-free programs with struct declarations the formatted TEXT = the text model of "
+                  "the Format methods and the tabwriter, character for character). The lexical tables are dumped by the "
+                  "compiled token/scanner packages on every run and GenProofs.v proves that the model scanner answers 4416 "
+                  "enumerated probes as scanner.go does. checked_case_satisfies_property ties the boolean check to the model "
+                  "statement; the model scanner is proved total without help from its fuel.")
     level_note = ("partial: proof of the language model + translation validation of the Go code. Comments are outside the "
                   "grammar model (judged as an ordered list of texts with positions). Known findings are suppressed only for "
                   "comments whose grammar position and form is a key of the committed table tools/props/c20_known_gaps.json "
                   "with the failure mode observed; no probe of the tree under test decides what is generated or suppressed.")
-    rule = ("programs: 1..9 statements of every kind (syntax/info/import single+group/type single+group with nested structs, "
+    rule = ("fixed in every run: corpus files, 430 EMPTY forms of every grouping construct in every position, white space "
+            "as/inside every string literal position (90), every deletable statement x every neighbourhood (240); drawn from "
+            "the seed: a third of the lexeme matrix, 1/48 of the 20895 per-position single-character mutations of 7 small "
+            "programs (each a case of its own), sets of files importing one another, and "
+            "programs: 1..9 statements of every kind (syntax/info/import single+group/type single+group with nested structs, "
             "arrays, slices, maps (also as map keys), pointers, any, interface{}, embedded fields, tags/@server with every value "
             "shape and every duration unit/service blocks (often several with one name) with @doc/@handler/routes with and "
             "without request/response/empty bodies), comments (line/block/doc, own line, end of line, inline, inside route "
@@ -383,7 +391,8 @@ class C20(Property):
             "non-trivial = the Go parser accepted it, it has >= 12 tokens and the formatter changed its text; distinct = hash "
             "of the source")
     trusted_base = [
-        "models theories/C20/{Scanner,Model}.v are hand-written from scanner.go/parser.go; tie = per-program translation "
+        "models theories/C20/{Scanner,Model,Text}.v are hand-written from scanner.go/parser.go/ast/*.go (Text.v also models "
+        "text/tabwriter and covers comment-free programs with struct declarations only); tie = per-program translation "
         "validation (harness/goctlh/cmd/c20): model scanner vs Go scanner on every source and formatted text; Go scanner "
         "tokens -> model parse = Go parser AST dump; Go formatter tokens and line bits = model print",
         "the executor's canonical AST dump (dumpStmt/dumpDT) and tools/props/c20.py's rendering of it as Gallina terms",
